@@ -59,3 +59,7 @@ chk('C16', 'exploration',
     'Field values weighted towards delimiters, escapes and line breaks are generated for the WIFI, MeCard, vCard, geo, mailto and EPC factories; the payloads are parsed back by own parsers (unescaped-; splitting, vCard line structure, URI grammars, EPC069-12 line layout with Decimal equality and the 331 byte / length limits); every second case also builds the symbol with the make_* factory and decodes it with the reference decoder (EPC: level M, version <= 13).',
     'Trusted: parsers in vlib/props/c16.py, reference decoder. Sampled.',
     'Hypothesis search with round-trip parsers for every helper payload format', 'DESIGN.md 4/C16')
+chk('C15', 'exploration',
+    'Call histories are generated with a Hypothesis rule-based state machine and executed in one child process per history; every result is compared with the answer of a pristine process (fresh fork executing only that call), live symbols are compared with their snapshots, arguments with copies and the module-level lookup tables with their import-time hash after every step; re-encoding with the reported version/level/mask must reproduce the matrix. Thread interleavings are generated as explicit schedules (thread, number of segno lines) executed by a harness-owned scheduler (sys.settrace + baton), results compared with the single-threaded answers.',
+    'Baseline = same code in a pristine process (history / schedule independence only). Interleavings are line-granular under the GIL; OS-level schedules only in the thorough best-effort phase.',
+    'Hypothesis stateful testing (RuleBasedStateMachine) + generated deterministic thread schedules against a pristine-process oracle', 'DESIGN.md 4/C15')
